@@ -224,7 +224,10 @@ class Check:
             "violations": len(self.violations),
         }
         evdir = EVIDENCE / "ext" if self.prop.startswith("EXT") else EVIDENCE  # extensions are not listed properties
-        evdir.mkdir(exist_ok=True)
+        if REPO.resolve() != Path("/repo"):
+            # a run against another tree (a seeded change in a scratch worktree) never overwrites the evidence of /repo
+            evdir = Path(tempfile.gettempdir()) / "verif_evidence_other_tree"
+        evdir.mkdir(exist_ok=True, parents=True)
         (evdir / f"{self.prop}.json").write_text(json.dumps(ev, indent=1, default=str))
         if self.violations:
             print(f"{self.prop}: {len(self.violations)} violation(s), {len(self._sig_seen)} distinct signature(s)", flush=True)
